@@ -30,6 +30,21 @@ SPEC = {
 }
 
 
+def represent(A, h):
+    """the caller's property array in another in-memory representation (fresh copy / read-only / Fortran order / strided view)"""
+    r = h % 5
+    B = A.copy()
+    if r == 1:
+        B.setflags(write=False)
+    elif r == 2 and A.ndim >= 2:
+        B = np.asfortranarray(A)
+    elif r == 3:
+        big = np.zeros(A.shape[:1] + (2 * A.shape[1] + 1,) + A.shape[2:], dtype=A.dtype)
+        big[:, 1::2] = A
+        B = big[:, 1::2]
+    return B
+
+
 def case_spatial(ctx, rng, wd):
     from PyMatterSim.utils.coarse_graining import spatial_average
     T = int(rng.integers(1, 4))
@@ -49,7 +64,17 @@ def case_spatial(ctx, rng, wd):
     Nmax = int(rng.choice([maxcn, maxcn + 5, 30]))
     out = os.path.join(wd, "sa.npy") if rng.random() < 0.2 else ""
     info = lambda: {"T": T, "N": N, "rank": rank, "Nmax": Nmax, "lists": lists if N <= 10 else "omitted", "property": A if A.size < 200 else "omitted"}  # noqa: E731
-    ok, res = ctx.call("spatial_average", spatial_average, A.copy(), fn, Nmax, out, data=info)
+    Ain = represent(A, T + N + rank)
+    if rng.random() < 0.3:
+        # history: the same file read immediately before with another maximum / for another property of the same shape
+        if rng.random() < 0.5:
+            ctx.call("spatial_average/prior_call", spatial_average, Ain, fn, max(1, maxcn - 1), "", data=info)
+        else:
+            ctx.call("spatial_average/prior_call", spatial_average, rng.normal(size=A.shape), fn, Nmax, "", data=info)
+        ctx.count("prior_call_one_argument_changed")
+    ok, res = ctx.call("spatial_average", spatial_average, Ain, fn, Nmax, out, data=info)
+    if ok:
+        ctx.check("input_untouched", np.array_equal(np.asarray(Ain), A), "spatial_average/input_modified", "the property array was modified", info)
     ctx.case(f"spatial/rank{rank}", A, lists, nontrivial=True, sample={"T": T, "N": N, "rank": rank, "Nmax": Nmax})
     if not ok:
         return
@@ -65,12 +90,14 @@ def case_spatial(ctx, rng, wd):
     os.remove(fn)
 
 
-def case_blur(ctx, rng, wd, unequal):
+def case_blur(ctx, rng, wd, unequal, big=False):
     from PyMatterSim.utils.coarse_graining import gaussian_blurring
     d = int(rng.choice([2, 3]))
     T = int(rng.integers(1, 4))
     N = int(rng.integers(2, 25))
     rank = int(rng.choice([0, 0, 1, 2]))
+    if big:
+        d, T, N = 3, 1, 300
     cell = gc.make_cell(rng, d, "ortho", lmin=3.0, lmax=9.0)
     # the box (lengths and origin) may change from frame to frame (NPT runs, deformation): every frame has its own grid
     vary = T > 1 and rng.random() < 0.5
@@ -83,6 +110,9 @@ def case_blur(ctx, rng, wd, unequal):
             ng[-1] = 2 if ng[0] != 2 else 5
     else:
         ng = np.full(d, int(rng.integers(2, 7)))
+    if big:
+        ng = np.array([37, 23, 11])          # a grid of ~10^4 points (block-wise evaluation boundaries)
+        ctx.count("grids_over_9000_points")
     sigma = float(rng.uniform(0.3, 2.0))
     L = np.min([np.diag(c["H"]) for c in cells], axis=0)
     cut = float(rng.uniform(0.8, 0.49 * L.min() / 0.5 * 0.5))
@@ -94,7 +124,21 @@ def case_blur(ctx, rng, wd, unequal):
     info = lambda: {"d": d, "T": T, "N": N, "rank": rank, "ngrids": ng, "sigma": sigma, "cut": cut, "ppp": pin, "L": L, "origin": cell["origin"],  # noqa: E731
                     "positions": [s.positions for s in snaps.snapshots] if N <= 12 else "omitted"}
     key = "gaussian_blurring/" + ("unequal_grid" if unequal else "equal_grid") + f"/{d}D" + ("/varying_box" if vary else "")
-    ok, res = ctx.call(key, gaussian_blurring, snaps, A.copy(), ng.copy(), sigma, pin.copy(), cut, out, data=info)
+    Ain = represent(A, T + N + rank + d)
+    if rng.random() < 0.3:
+        # history: the same trajectory blurred immediately before on a grid with the SAME number of points arranged otherwise (point
+        # numbers per axis reversed), or with another width / cut-off
+        u = rng.random()
+        if u < 0.4 and len(set(ng.tolist())) > 1:
+            ctx.call(key + "/prior_call", gaussian_blurring, snaps, Ain, ng[::-1].copy(), sigma, pin.copy(), cut, "", data=info)
+        elif u < 0.7:
+            ctx.call(key + "/prior_call", gaussian_blurring, snaps, Ain, ng.copy(), sigma * 1.7, pin.copy(), cut, "", data=info)
+        else:
+            ctx.call(key + "/prior_call", gaussian_blurring, snaps, Ain, ng.copy(), sigma, pin.copy(), cut * 0.6, "", data=info)
+        ctx.count("prior_call_one_argument_changed")
+    ok, res = ctx.call(key, gaussian_blurring, snaps, Ain, ng.copy(), sigma, pin.copy(), cut, out, data=info)
+    if ok:
+        ctx.check("input_untouched", np.array_equal(np.asarray(Ain), A), key + "/input_modified", "the property array was modified", info)
     ctx.case(f"blur/{d}D/{'unequal' if unequal else 'equal'}/rank{rank}", snaps.snapshots[0].positions, A, ng, sigma, cut, ppp,
              nontrivial=int(np.prod(ng)) > 1, sample={"d": d, "N": N, "ngrids": ng, "sigma": sigma, "cut": cut, "ppp": ppp, "rank": rank})
     if unequal:
@@ -173,7 +217,14 @@ def case_time(ctx, rng, exact):
     info = lambda: {"T": T, "N": N, "dt": dt_s, "timestep_interval": step, "time_period": period_s, "expected_window": wexp,  # noqa: E731
                     "property": A if A.size < 100 else "omitted"}
     key = "time_average" + ("/exact_multiple" if exact and period == interval * w else "")
-    ok, res = ctx.call(key, time_average, snaps, A.copy(), float(period_s), float(dt_s), data=info)
+    Ain = represent(A, T + N + w)
+    if rng.random() < 0.3 and T >= 4:
+        # history: another window asked for immediately before (a scan over averaging times)
+        ctx.call(key + "/prior_call", time_average, snaps, Ain, float(interval * (1 if wexp > 1 else 2)) * 1.0000001, float(dt_s), data=info)
+        ctx.count("prior_call_one_argument_changed")
+    ok, res = ctx.call(key, time_average, snaps, Ain, float(period_s), float(dt_s), data=info)
+    if ok:
+        ctx.check("input_untouched", np.array_equal(np.asarray(Ain), A), key + "/input_modified", "the property array was modified", info)
     ctx.case(f"time/{'exact' if exact else 'generic'}/{'complex' if cplx else 'real'}", A, step, dt_s, period_s, nontrivial=wexp >= 2,
              sample={"T": T, "N": N, "dt": dt_s, "interval_steps": step, "time_period": period_s, "window": wexp})
     if exact:
@@ -201,6 +252,8 @@ def case_time(ctx, rng, exact):
 def run(ctx):
     from ..harness import fresh_dir, drop_dir
     wd = fresh_dir("c16")
+    if ctx.shard == 0 or ctx.thorough:
+        case_blur(ctx, ctx.rng(), wd, unequal=True, big=True)
     n = ctx.n(160, 500)
     for i in range(n):
         case_spatial(ctx, ctx.rng(), wd)
